@@ -128,6 +128,8 @@ impl Generator {
             }
             Err(x) => println!("laze: reading cache: {x}"),
         }
+        #[cfg(kaspar030_laze_verif)]
+        crate::verif::fault("after_cache_check");
 
         let (contexts, treestate, load_stats) = load(&self.project_file, &self.build_dir)?;
 
@@ -141,16 +143,22 @@ impl Generator {
             load_stats.files, load_stats.stat_time
         );
 
+        #[cfg(kaspar030_laze_verif)]
+        crate::verif::fault("after_load");
         std::fs::create_dir_all(&self.build_dir)?;
         let mut ninja_build_file = std::io::BufWriter::new(std::fs::File::create(
             get_ninja_build_file(&self.build_dir, &self.mode).as_path(),
         )?);
+        #[cfg(kaspar030_laze_verif)]
+        crate::verif::fault("after_ninja_create");
 
         ninja_build_file
             .write_all(format!("builddir = {}\n", self.build_dir.clone()).as_bytes())?;
 
         // add phony helper
         ninja_build_file.write_all(b"build ALWAYS: phony\n")?;
+        #[cfg(kaspar030_laze_verif)]
+        crate::verif::fault("after_header");
 
         let start = Instant::now();
 
@@ -272,6 +280,8 @@ impl Generator {
                 }
             })
             .collect::<Result<Vec<(BuildInfo, IndexSet<String>)>, anyhow::Error>>()?;
+        #[cfg(kaspar030_laze_verif)]
+        crate::verif::fault("after_configure");
 
         let mut combined_ninja_entries = IndexSet::new();
         let builds = builds
@@ -285,6 +295,8 @@ impl Generator {
         for entry in combined_ninja_entries {
             ninja_build_file.write_all(entry.as_bytes())?;
         }
+        #[cfg(kaspar030_laze_verif)]
+        crate::verif::fault("after_entries");
 
         let num_built = builds.len();
         println!(
@@ -296,6 +308,8 @@ impl Generator {
         let build_dir = self.build_dir.clone();
         let result = GenerateResult::new(self, builds, treestate);
         result.to_cache(&build_dir)?;
+        #[cfg(kaspar030_laze_verif)]
+        crate::verif::fault("after_cache_write");
         Ok(result)
     }
 }
@@ -384,6 +398,8 @@ fn configure_build(
         }
     } {
         println!("{}", reason);
+        #[cfg(kaspar030_laze_verif)]
+        crate::verif::dump_nobuild(&builder.name, binary, "blocked");
         return Ok(reason.into());
     }
 
@@ -397,6 +413,8 @@ fn configure_build(
             contexts.context_by_id(binary.context_id.unwrap()).name,
         ));
         println!("{}", reason);
+        #[cfg(kaspar030_laze_verif)]
+        crate::verif::dump_nobuild(&builder.name, binary, "not-ancestor");
         return Ok(reason.into());
     }
 
@@ -419,12 +437,17 @@ fn configure_build(
         disabled_modules.extend(disable.iter().cloned());
     }
 
+    #[cfg(kaspar030_laze_verif)]
+    let verif_disabled = disabled_modules.clone();
+
     // resolve all dependency names to specific modules.
     // this also determines if all dependencies are met
     let resolved = match build.resolve_selects(disabled_modules, verbose) {
         Err(e) => {
             reason.msg(format!("laze: not building {:?}", e));
             println!("{}", reason);
+            #[cfg(kaspar030_laze_verif)]
+            crate::verif::dump_nobuild(&builder.name, binary, "unresolved");
             return Ok(reason.into());
         }
         Ok(val) => val,
@@ -577,6 +600,8 @@ fn configure_build(
                     binary.name, builder.name
                 ));
                 println!("{}", reason);
+                #[cfg(kaspar030_laze_verif)]
+                crate::verif::dump_nobuild(&builder.name, binary, "dep-cycle");
                 return Ok(reason.into());
             }
         }
@@ -992,6 +1017,19 @@ fn configure_build(
     let tasks = build
         .build_context
         .collect_tasks(contexts, &global_env_flattened, &modules)?;
+
+    #[cfg(kaspar030_laze_verif)]
+    crate::verif::dump_build(
+        builder,
+        binary,
+        &build.build_context,
+        &verif_disabled,
+        &modules,
+        merge_opts.as_ref(),
+        &global_env_flattened,
+        outfile.as_str(),
+        &tasks,
+    );
 
     Ok(ConfigureBuildResult::Build(
         BuildInfo {
